@@ -57,3 +57,318 @@ theorem ffmule (x : UInt8) : ffmul 0x0e x = gmul 0x0e x := by revert x; apply u8
 theorem rcon_take : gen.rcon.take 10 = (List.range' 1 10).map (fun j => gpow 2 (j - 1)) := by decide +kernel
 
 end Tbox.C19.Aes
+
+namespace Tbox.C19.Aes
+open Tbox.C19 Tbox.C19.B64 Tbox.C19.Spec
+set_option maxRecDepth 100000
+
+theorem t_sub (st : List UInt8) (h : st.length = 16) : transpose (aesSubBytes st) = subBytes gen (transpose st) := by
+  obtain ⟨a0, a1, a2, a3, a4, a5, a6, a7, a8, a9, a10, a11, a12, a13, a14, a15, rfl⟩ := len16 st h
+  simp [aesSubBytes, subBytes, transpose, mk, sbox_eq]
+
+theorem t_invsub (st : List UInt8) (h : st.length = 16) : transpose (aesInvSubBytes st) = invSubBytes gen (transpose st) := by
+  obtain ⟨a0, a1, a2, a3, a4, a5, a6, a7, a8, a9, a10, a11, a12, a13, a14, a15, rfl⟩ := len16 st h
+  simp [aesInvSubBytes, invSubBytes, transpose, mk, invSbox_eq]
+
+theorem t_shift (st : List UInt8) (h : st.length = 16) : transpose (aesShiftRows st) = shiftRows (transpose st) := by
+  obtain ⟨a0, a1, a2, a3, a4, a5, a6, a7, a8, a9, a10, a11, a12, a13, a14, a15, rfl⟩ := len16 st h
+  rfl
+
+theorem t_invshift (st : List UInt8) (h : st.length = 16) : transpose (aesInvShiftRows st) = invShiftRows (transpose st) := by
+  obtain ⟨a0, a1, a2, a3, a4, a5, a6, a7, a8, a9, a10, a11, a12, a13, a14, a15, rfl⟩ := len16 st h
+  rfl
+
+theorem t_xor (st k : List UInt8) (h : st.length = 16) (hk : k.length = 16) :
+    transpose (aesXor st k) = addRoundKey (transpose st) (transpose k) := by
+  obtain ⟨a0, a1, a2, a3, a4, a5, a6, a7, a8, a9, a10, a11, a12, a13, a14, a15, rfl⟩ := len16 st h
+  obtain ⟨k0, k1, k2, k3, k4, k5, k6, k7, k8, k9, k10, k11, k12, k13, k14, k15, rfl⟩ := len16 k hk
+  rfl
+
+theorem t_mix (st : List UInt8) (h : st.length = 16) : transpose (aesMixColumns st) = mixColumns (transpose st) := by
+  obtain ⟨a0, a1, a2, a3, a4, a5, a6, a7, a8, a9, a10, a11, a12, a13, a14, a15, rfl⟩ := len16 st h
+  simp only [aesMixColumns, aesMixCol, mixColumns, transpose, mk, at_, List.getD_cons_zero, List.getD_cons_succ,
+    Nat.reduceAdd, Nat.reduceMul, Nat.reduceMod, List.cons_append, List.nil_append, List.append_nil,
+    ffmul1, ffmul2, ffmul3, List.cons.injEq, and_true]
+  refine ⟨?_, ?_, ?_, ?_, ?_, ?_, ?_, ?_, ?_, ?_, ?_, ?_, ?_, ?_, ?_, ?_⟩ <;> first | trivial | ac_rfl
+
+theorem t_invmix (st : List UInt8) (h : st.length = 16) : transpose (aesInvMixColumns st) = invMixColumns (transpose st) := by
+  obtain ⟨a0, a1, a2, a3, a4, a5, a6, a7, a8, a9, a10, a11, a12, a13, a14, a15, rfl⟩ := len16 st h
+  simp only [aesInvMixColumns, aesInvMixCol, invMixColumns, transpose, mk, at_, List.getD_cons_zero, List.getD_cons_succ,
+    Nat.reduceAdd, Nat.reduceMul, Nat.reduceMod, List.cons_append, List.nil_append, List.append_nil,
+    ffmul9, ffmulb, ffmuld, ffmule, List.cons.injEq, and_true]
+  refine ⟨?_, ?_, ?_, ?_, ?_, ?_, ?_, ?_, ?_, ?_, ?_, ?_, ?_, ?_, ?_, ?_⟩ <;> first | trivial | ac_rfl
+
+
+/-! ### lengths on the FIPS side -/
+theorem aesXor_length (a b : List UInt8) (ha : a.length = 16) (hb : b.length = 16) : (aesXor a b).length = 16 := by
+  simp [aesXor, ha, hb]
+theorem aesShiftRows_length (st : List UInt8) : (aesShiftRows st).length = 16 := by simp [aesShiftRows]
+theorem aesInvShiftRows_length (st : List UInt8) : (aesInvShiftRows st).length = 16 := by simp [aesInvShiftRows]
+theorem aesSubBytes_length (st : List UInt8) : (aesSubBytes st).length = st.length := by simp [aesSubBytes]
+theorem aesInvSubBytes_length (st : List UInt8) : (aesInvSubBytes st).length = st.length := by simp [aesInvSubBytes]
+theorem aesMixColumns_length (st : List UInt8) (h : st.length = 16) : (aesMixColumns st).length = 16 := by
+  obtain ⟨a0, a1, a2, a3, a4, a5, a6, a7, a8, a9, a10, a11, a12, a13, a14, a15, rfl⟩ := len16 st h
+  rfl
+theorem aesInvMixColumns_length (st : List UInt8) (h : st.length = 16) : (aesInvMixColumns st).length = 16 := by
+  obtain ⟨a0, a1, a2, a3, a4, a5, a6, a7, a8, a9, a10, a11, a12, a13, a14, a15, rfl⟩ := len16 st h
+  rfl
+
+/-! ### rounds -/
+variable (w : List Mat) (rk : Nat → List UInt8)
+
+theorem enc_round_eq (st : List UInt8) (h : st.length = 16) (i : Nat) (hi : i ≠ 10)
+    (hk : wAt w i = transpose (rk i)) (hl : (rk i).length = 16) :
+    encRound gen w (transpose st) i
+      = transpose (aesXor (aesMixColumns (aesShiftRows (aesSubBytes st))) (rk i)) := by
+  unfold encRound
+  simp only [hi, ne_eq, not_false_eq_true, if_true]
+  rw [t_xor _ _ (aesMixColumns_length _ (aesShiftRows_length _)) hl, t_mix _ (aesShiftRows_length _),
+    t_shift _ (by rw [aesSubBytes_length]; exact h), t_sub _ h, hk]
+
+theorem enc_last_eq (st : List UInt8) (h : st.length = 16)
+    (hk : wAt w 10 = transpose (rk 10)) (hl : (rk 10).length = 16) :
+    encRound gen w (transpose st) 10 = transpose (aesXor (aesShiftRows (aesSubBytes st)) (rk 10)) := by
+  unfold encRound
+  simp only [ne_eq, not_true_eq_false, if_false]
+  rw [t_xor _ _ (aesShiftRows_length _) hl, t_shift _ (by rw [aesSubBytes_length]; exact h), t_sub _ h, hk]
+
+theorem dec_round_eq (st : List UInt8) (h : st.length = 16) (i : Nat) (hi : i ≠ 0)
+    (hk : wAt w i = transpose (rk i)) (hl : (rk i).length = 16) :
+    decRound gen w (transpose st) i
+      = transpose (aesInvMixColumns (aesXor (aesInvSubBytes (aesInvShiftRows st)) (rk i))) := by
+  unfold decRound
+  simp only [hi, ne_eq, not_false_eq_true, if_true]
+  have l1 : (aesInvSubBytes (aesInvShiftRows st)).length = 16 := by
+    rw [aesInvSubBytes_length]; exact aesInvShiftRows_length _
+  rw [t_invmix _ (aesXor_length _ _ l1 hl), t_xor _ _ l1 hl, t_invsub _ (aesInvShiftRows_length _), t_invshift _ h, hk]
+
+theorem dec_last_eq (st : List UInt8) (h : st.length = 16)
+    (hk : wAt w 0 = transpose (rk 0)) (hl : (rk 0).length = 16) :
+    decRound gen w (transpose st) 0 = transpose (aesXor (aesInvSubBytes (aesInvShiftRows st)) (rk 0)) := by
+  unfold decRound
+  simp only [ne_eq, not_true_eq_false, if_false]
+  have l1 : (aesInvSubBytes (aesInvShiftRows st)).length = 16 := by
+    rw [aesInvSubBytes_length]; exact aesInvShiftRows_length _
+  rw [t_xor _ _ l1 hl, t_invsub _ (aesInvShiftRows_length _), t_invshift _ h, hk]
+
+/-- the FIPS round function used by `aesCipher` -/
+def sRound (st : List UInt8) (r : Nat) : List UInt8 :=
+  aesXor (aesMixColumns (aesShiftRows (aesSubBytes st))) (rk r)
+def sInvRound (st : List UInt8) (r : Nat) : List UInt8 :=
+  aesInvMixColumns (aesXor (aesInvSubBytes (aesInvShiftRows st)) (rk r))
+
+theorem sRound_length (st : List UInt8) (r : Nat) (hl : (rk r).length = 16) : (sRound rk st r).length = 16 :=
+  aesXor_length _ _ (aesMixColumns_length _ (aesShiftRows_length _)) hl
+theorem sInvRound_length (st : List UInt8) (r : Nat) (hl : (rk r).length = 16) : (sInvRound rk st r).length = 16 :=
+  aesInvMixColumns_length _ (aesXor_length _ _ (by rw [aesInvSubBytes_length]; exact aesInvShiftRows_length _) hl)
+
+theorem cipherMat_eq (st : List UInt8) (h : st.length = 16)
+    (hk : ∀ i, i ≤ 10 → wAt w i = transpose (rk i)) (hl : ∀ i, i ≤ 10 → (rk i).length = 16) :
+    cipherMat gen w (transpose st)
+      = transpose (aesXor (aesShiftRows (aesSubBytes
+          ((List.range' 1 9).foldl (sRound rk) (aesXor st (rk 0))))) (rk 10)) := by
+  unfold cipherMat
+  have hr : List.range' 1 10 = [1, 2, 3, 4, 5, 6, 7, 8, 9, 10] := by decide
+  have hr9 : List.range' 1 9 = [1, 2, 3, 4, 5, 6, 7, 8, 9] := by decide
+  rw [hr, hr9]
+  simp only [List.foldl_cons, List.foldl_nil]
+  have e0 : addRoundKey (transpose st) (wAt w 0) = transpose (aesXor st (rk 0)) := by
+    rw [hk 0 (by omega), t_xor _ _ h (hl 0 (by omega))]
+  have l0 : (aesXor st (rk 0)).length = 16 := aesXor_length _ _ h (hl 0 (by omega))
+  rw [e0]
+  have step : ∀ (x : List UInt8) (i : Nat), x.length = 16 → i ≠ 10 → i ≤ 10 →
+      encRound gen w (transpose x) i = transpose (sRound rk x i) :=
+    fun x i hx hi hi' => enc_round_eq w rk x hx i hi (hk i hi') (hl i hi')
+  have len : ∀ (x : List UInt8) (i : Nat), i ≤ 10 → (sRound rk x i).length = 16 := fun x i hi => sRound_length rk x i (hl i hi)
+  rw [step _ 1 l0 (by decide) (by decide), step _ 2 (len _ _ (by decide)) (by decide) (by decide),
+    step _ 3 (len _ _ (by decide)) (by decide) (by decide), step _ 4 (len _ _ (by decide)) (by decide) (by decide),
+    step _ 5 (len _ _ (by decide)) (by decide) (by decide), step _ 6 (len _ _ (by decide)) (by decide) (by decide),
+    step _ 7 (len _ _ (by decide)) (by decide) (by decide), step _ 8 (len _ _ (by decide)) (by decide) (by decide),
+    step _ 9 (len _ _ (by decide)) (by decide) (by decide)]
+  exact enc_last_eq w rk _ (len _ _ (by decide)) (hk 10 (by omega)) (hl 10 (by omega))
+
+theorem invCipherMat_eq (st : List UInt8) (h : st.length = 16)
+    (hk : ∀ i, i ≤ 10 → wAt w i = transpose (rk i)) (hl : ∀ i, i ≤ 10 → (rk i).length = 16) :
+    invCipherMat gen w (transpose st)
+      = transpose (aesXor (aesInvSubBytes (aesInvShiftRows
+          ([9, 8, 7, 6, 5, 4, 3, 2, 1].foldl (sInvRound rk) (aesXor st (rk 10))))) (rk 0)) := by
+  unfold invCipherMat
+  simp only [List.foldl_cons, List.foldl_nil]
+  have e0 : addRoundKey (transpose st) (wAt w 10) = transpose (aesXor st (rk 10)) := by
+    rw [hk 10 (by omega), t_xor _ _ h (hl 10 (by omega))]
+  have l0 : (aesXor st (rk 10)).length = 16 := aesXor_length _ _ h (hl 10 (by omega))
+  rw [e0]
+  have step : ∀ (x : List UInt8) (i : Nat), x.length = 16 → i ≠ 0 → i ≤ 10 →
+      decRound gen w (transpose x) i = transpose (sInvRound rk x i) :=
+    fun x i hx hi hi' => dec_round_eq w rk x hx i hi (hk i hi') (hl i hi')
+  have len : ∀ (x : List UInt8) (i : Nat), i ≤ 10 → (sInvRound rk x i).length = 16 := fun x i hi => sInvRound_length rk x i (hl i hi)
+  rw [step _ 9 l0 (by decide) (by decide), step _ 8 (len _ _ (by decide)) (by decide) (by decide),
+    step _ 7 (len _ _ (by decide)) (by decide) (by decide), step _ 6 (len _ _ (by decide)) (by decide) (by decide),
+    step _ 5 (len _ _ (by decide)) (by decide) (by decide), step _ 4 (len _ _ (by decide)) (by decide) (by decide),
+    step _ 3 (len _ _ (by decide)) (by decide) (by decide), step _ 2 (len _ _ (by decide)) (by decide) (by decide),
+    step _ 1 (len _ _ (by decide)) (by decide) (by decide)]
+  exact dec_last_eq w rk _ (len _ _ (by decide)) (hk 0 (by omega)) (hl 0 (by omega))
+
+
+/-! ### key schedule -/
+/-- the four column words of a row-major matrix -/
+def colsOf (m : Mat) : List (List UInt8) :=
+  [[at_ m 0 0, at_ m 1 0, at_ m 2 0, at_ m 3 0], [at_ m 0 1, at_ m 1 1, at_ m 2 1, at_ m 3 1],
+   [at_ m 0 2, at_ m 1 2, at_ m 2 2, at_ m 3 2], [at_ m 0 3, at_ m 1 3, at_ m 2 3, at_ m 3 3]]
+
+/-- the model's round keys from one key on -/
+def ksFrom : Mat → List UInt8 → List Mat
+  | prev, [] => [prev]
+  | prev, rc :: r => prev :: ksFrom (nextKey gen prev rc) r
+
+theorem ksFrom_length : ∀ (rcs : List UInt8) (prev : Mat), (ksFrom prev rcs).length = rcs.length + 1 := by
+  intro rcs; induction rcs with
+  | nil => intro p; rfl
+  | cons rc r ih => intro p; simp [ksFrom, ih]
+
+theorem ksFrom_lengths : ∀ (rcs : List UInt8) (prev : Mat), prev.length = 16 → ∀ m ∈ ksFrom prev rcs, m.length = 16 := by
+  intro rcs; induction rcs with
+  | nil => intro p hp m hm; simp [ksFrom] at hm; subst hm; exact hp
+  | cons rc r ih =>
+    intro p hp m hm
+    simp only [ksFrom, List.mem_cons] at hm
+    rcases hm with rfl | hm
+    · exact hp
+    · exact ih _ (nextKey_length _ _ _) m hm
+
+theorem model_ks (w0 : Mat) : ∀ (rcs : List UInt8) (Ms : List Mat) (prev : Mat),
+    rcs.foldl (fun ws rc => ws ++ [nextKey gen (ws.getLastD w0) rc]) (Ms ++ [prev]) = Ms ++ ksFrom prev rcs := by
+  intro rcs
+  induction rcs with
+  | nil => intro Ms prev; rfl
+  | cons rc r ih =>
+    intro Ms prev
+    simp only [List.foldl_cons, ksFrom]
+    have hl : (Ms ++ [prev]).getLastD w0 = prev := by simp [List.getLastD_eq_getLast?]
+    rw [hl, ih (Ms ++ [prev]) (nextKey gen prev rc)]
+    simp
+
+theorem getD_app {α} (pre l : List α) (j : Nat) (d : α) : (pre ++ l).getD (pre.length + j) d = l.getD j d := by
+  simp [List.getD_eq_getElem?_getD, List.getElem?_append_right]
+
+/-- four steps of the FIPS word recursion = one `nextKey` of the source -/
+theorem key_round (pre : List (List UInt8)) (prev : Mat) (hp : prev.length = 16) (hn : pre.length % 4 = 0) :
+    [pre.length + 4, pre.length + 5, pre.length + 6, pre.length + 7].foldl aesKeyStep (pre ++ colsOf prev)
+      = (pre ++ colsOf prev) ++ colsOf (nextKey gen prev (gpow 2 (pre.length / 4))) := by
+  obtain ⟨a0, a1, a2, a3, a4, a5, a6, a7, a8, a9, a10, a11, a12, a13, a14, a15, rfl⟩ := len16 prev hp
+  have g : ∀ (l : List (List UInt8)) (j : Nat), (pre ++ l).getD (pre.length + j) [] = l.getD j [] :=
+    fun l j => getD_app pre l j []
+  have m0 : (pre.length + 4) % 4 = 0 := by omega
+  have m1 : (pre.length + 5) % 4 ≠ 0 := by omega
+  have m2 : (pre.length + 6) % 4 ≠ 0 := by omega
+  have m3 : (pre.length + 7) % 4 ≠ 0 := by omega
+  have d0 : (pre.length + 4) / 4 - 1 = pre.length / 4 := by omega
+  simp only [List.foldl_cons, List.foldl_nil, aesKeyStep, m0, m1, m2, m3, if_true, if_false, d0, List.append_assoc,
+    show pre.length + 4 - 1 = pre.length + 3 by omega, show pre.length + 4 - 4 = pre.length + 0 by omega,
+    show pre.length + 5 - 1 = pre.length + 4 by omega, show pre.length + 5 - 4 = pre.length + 1 by omega,
+    show pre.length + 6 - 1 = pre.length + 5 by omega, show pre.length + 6 - 4 = pre.length + 2 by omega,
+    show pre.length + 7 - 1 = pre.length + 6 by omega, show pre.length + 7 - 4 = pre.length + 3 by omega, g]
+  simp [colsOf, at_, nextKey, mk, aesXor, aesRotWord, sbox_eq]
+
+
+theorem key_rounds : ∀ (n : Nat) (pre : List (List UInt8)) (prev : Mat), prev.length = 16 → pre.length % 4 = 0 →
+    (List.range' (pre.length + 4) (4 * n)).foldl aesKeyStep (pre ++ colsOf prev)
+      = pre ++ (ksFrom prev ((List.range' (pre.length / 4 + 1) n).map (fun j => gpow 2 (j - 1)))).flatMap colsOf := by
+  intro n
+  induction n with
+  | zero => intro pre prev _ _; simp [ksFrom]
+  | succ n ih =>
+    intro pre prev hp hn
+    have e : List.range' (pre.length + 4) (4 * (n + 1))
+        = [pre.length + 4, pre.length + 5, pre.length + 6, pre.length + 7] ++ List.range' (pre.length + 4 + 4) (4 * n) := by
+      have : 4 * (n + 1) = 4 + 4 * n := by omega
+      rw [this, ← List.range'_append_1]
+      simp [List.range'_succ]
+    rw [e, List.foldl_append, key_round pre prev hp hn]
+    have hl : (pre ++ colsOf prev).length = pre.length + 4 := by simp [colsOf]
+    have := ih (pre ++ colsOf prev) (nextKey gen prev (gpow 2 (pre.length / 4))) (nextKey_length _ _ _) (by rw [hl]; omega)
+    rw [hl] at this
+    rw [this]
+    have e2 : (pre.length + 4) / 4 + 1 = pre.length / 4 + 1 + 1 := by omega
+    rw [e2, List.range'_succ, List.map_cons, ksFrom]
+    simp
+
+/-- `key_rounds` with every index as a parameter (so that instances need no unfolding) -/
+theorem key_rounds' (n m s r : Nat) (pre start : List (List UInt8)) (prev : Mat) (hp : prev.length = 16)
+    (hn : pre.length % 4 = 0) (hm : m = 4 * n) (hs : s = pre.length + 4) (hr : r = pre.length / 4 + 1)
+    (hst : start = pre ++ colsOf prev) :
+    (List.range' s m).foldl aesKeyStep start
+      = pre ++ (ksFrom prev ((List.range' r n).map (fun j => gpow 2 (j - 1)))).flatMap colsOf := by
+  subst hm hs hr hst
+  exact key_rounds n pre prev hp hn
+
+theorem drop_take_cols : ∀ (Ms : List Mat) (i : Nat) (h : i < Ms.length),
+    ((Ms.flatMap colsOf).drop (4 * i)).take 4 = colsOf Ms[i] := by
+  intro Ms
+  induction Ms with
+  | nil => intro i h; simp at h
+  | cons M r ih =>
+    intro i h
+    cases i with
+    | zero => simp [colsOf]
+    | succ j =>
+      have : 4 * (j + 1) = (colsOf M).length + 4 * j := by simp [colsOf]; omega
+      rw [List.flatMap_cons, this, ← List.drop_drop, List.drop_left]
+      simpa using ih j (by simpa using h)
+
+theorem transpose_cols (m : Mat) (h : m.length = 16) : transpose (colsOf m).flatten = m := by
+  obtain ⟨a0, a1, a2, a3, a4, a5, a6, a7, a8, a9, a10, a11, a12, a13, a14, a15, rfl⟩ := len16 m h
+  rfl
+
+theorem key_words (key : List UInt8) (h : key.length = 16) :
+    aesKeyWords key = (keyExpansion gen key).flatMap colsOf := by
+  have hm : keyExpansion gen key = ksFrom (transpose key) ((List.range' 1 10).map (fun j => gpow 2 (j - 1))) := by
+    unfold keyExpansion
+    rw [rcon_take]
+    simpa using model_ks (transpose key) ((List.range' 1 10).map (fun j => gpow 2 (j - 1))) [] (transpose key)
+  have hs : [key.take 4, (key.drop 4).take 4, (key.drop 8).take 4, (key.drop 12).take 4] = colsOf (transpose key) := by
+    obtain ⟨a0, a1, a2, a3, a4, a5, a6, a7, a8, a9, a10, a11, a12, a13, a14, a15, rfl⟩ := len16 key h
+    rfl
+  unfold aesKeyWords
+  rw [hs, hm]
+  have h10 := key_rounds' 10 40 4 1 [] (colsOf (transpose key)) (transpose key) (transpose_length _) rfl rfl rfl rfl rfl
+  rw [h10, List.nil_append]
+
+/-- every round key of the source is the FIPS round key in the matrix layout -/
+theorem round_keys (key : List UInt8) (h : key.length = 16) (i : Nat) (hi : i ≤ 10) :
+    wAt (keyExpansion gen key) i = transpose (aesRoundKey (aesKeyWords key) i)
+      ∧ (aesRoundKey (aesKeyWords key) i).length = 16 := by
+  have hlen : (keyExpansion gen key).length = 11 := by
+    unfold keyExpansion
+    have := model_ks (transpose key) (gen.rcon.take 10) [] (transpose key)
+    simp only [List.nil_append] at this
+    rw [this, ksFrom_length, rcon_take]; simp
+  have hi' : i < (keyExpansion gen key).length := by omega
+  have hM : ((keyExpansion gen key)[i]).length = 16 := keyExpansion_lengths gen key _ (List.getElem_mem hi')
+  unfold aesRoundKey
+  rw [key_words key h, drop_take_cols _ i hi']
+  have hw : wAt (keyExpansion gen key) i = (keyExpansion gen key)[i] := by
+    unfold wAt; simp [List.getD_eq_getElem?_getD, List.getElem?_eq_getElem hi']
+  rw [hw]
+  refine ⟨?_, ?_⟩
+  · exact (transpose_cols _ hM).symm
+  · simp [colsOf]
+
+theorem cipher_eq_spec (key block : List UInt8) (hk : key.length = 16) (hb : block.length = 16) :
+    cipher gen key block = aesCipher key block := by
+  unfold cipher
+  rw [cipherMat_eq (keyExpansion gen key) (aesRoundKey (aesKeyWords key)) block hb
+    (fun i hi => (round_keys key hk i hi).1) (fun i hi => (round_keys key hk i hi).2)]
+  rw [transpose_transpose _ (aesXor_length _ _ (aesShiftRows_length _) (round_keys key hk 10 (by omega)).2)]
+  rfl
+
+theorem invCipher_eq_spec (key block : List UInt8) (hk : key.length = 16) (hb : block.length = 16) :
+    invCipher gen key block = aesInvCipher key block := by
+  unfold invCipher
+  rw [invCipherMat_eq (keyExpansion gen key) (aesRoundKey (aesKeyWords key)) block hb
+    (fun i hi => (round_keys key hk i hi).1) (fun i hi => (round_keys key hk i hi).2)]
+  rw [transpose_transpose _ (aesXor_length _ _ (by rw [aesInvSubBytes_length]; exact aesInvShiftRows_length _)
+    (round_keys key hk 0 (by omega)).2)]
+  rfl
+
+end Tbox.C19.Aes
